@@ -149,6 +149,8 @@ type c06Svc struct {
 	Routes  []c06Route
 }
 type c06Config struct {
+	LateSvc   bool // service filters are registered AFTER the routes of the service
+	LateCont  bool // container filters are registered AFTER the services were added
 	Container []int
 	Svcs      []c06Svc
 	Router    string
@@ -173,8 +175,15 @@ func buildC06(cfg *c06Config) *restful.Container {
 	if cfg.Router == "jsr311" {
 		c.Router(restful.RouterJSR311{})
 	}
-	for i, b := range cfg.Container {
-		c.Filter(mkFilter(fmt.Sprintf("C%d", i), b))
+	c.DoNotRecover(false)
+	c.RecoverHandler(func(v interface{}, w http.ResponseWriter) {
+		w.WriteHeader(500)
+		w.Write([]byte("recovered"))
+	})
+	if !cfg.LateCont {
+		for i, b := range cfg.Container {
+			c.Filter(mkFilter(fmt.Sprintf("C%d", i), b))
+		}
 	}
 	c.ServiceErrorHandler(func(err restful.ServiceError, req *restful.Request, resp *restful.Response) {
 		fLogOf(req.Request).add("enter", "E", tupleOf(req, resp))
@@ -187,12 +196,17 @@ func buildC06(cfg *c06Config) *restful.Container {
 	})
 	for si, s := range cfg.Svcs {
 		ws := new(restful.WebService).Path(s.Root)
-		for i, n := range names(fmt.Sprintf("S%d", si), s.Filters) {
-			ws.Filter(mkFilter(n, s.Filters[i]))
+		if !cfg.LateSvc {
+			for i, n := range names(fmt.Sprintf("S%d", si), s.Filters) {
+				ws.Filter(mkFilter(n, s.Filters[i]))
+			}
 		}
 		for _, r := range s.Routes {
 			rb := ws.GET(r.Path).To(func(req *restful.Request, resp *restful.Response) {
 				fLogOf(req.Request).add("enter", "H", tupleOf(req, resp))
+				if req.Request.Header.Get("X-Panic") == "H" {
+					panic("handler panic")
+				}
 				resp.WriteHeader(200)
 				resp.Write([]byte("ok"))
 			})
@@ -204,7 +218,17 @@ func buildC06(cfg *c06Config) *restful.Container {
 			}
 			ws.Route(rb)
 		}
+		if cfg.LateSvc {
+			for i, n := range names(fmt.Sprintf("S%d", si), s.Filters) {
+				ws.Filter(mkFilter(n, s.Filters[i]))
+			}
+		}
 		c.Add(ws)
+	}
+	if cfg.LateCont {
+		for i, b := range cfg.Container {
+			c.Filter(mkFilter(fmt.Sprintf("C%d", i), b))
+		}
 	}
 	c.HandleWithFilter("/plain/", http.HandlerFunc(func(w http.ResponseWriter, r *http.Request) {
 		fLogOf(r).add("enter", "P", hand{HReq: fmt.Sprintf("%p", r), Writer: ident(w)})
@@ -250,6 +274,16 @@ func expectedEvents(e []string, short string) [][2]string {
 // checkLog is the offline checker over one request's log.
 func checkLog(evs []fEvent, rq *c06Req) (string, string) {
 	want := expectedEvents(rq.Expect, rq.Short)
+	if rq.Kind == "routed-panic" {
+		// the panic unwinds the chain: nobody runs again, nobody exits normally
+		var w2 [][2]string
+		for _, w := range want {
+			if w[0] != "exit" {
+				w2 = append(w2, w)
+			}
+		}
+		want = w2
+	}
 	var got []string
 	for _, e := range evs {
 		got = append(got, e.Kind+":"+e.Name)
@@ -333,7 +367,7 @@ func genBehs(r *core.Rand, max int) []int {
 
 func c06(ctx *core.Ctx) {
 	quietLogs()
-	ctx.Rule("generated configurations: 0-5 container filters, two WebServices with 0-3 service filters, two routes and a pair of representation twins (same method and path, JSON vs XML) with 0-3 route filters each, every filter named after its owner, behaviour per filter in {pass, set attribute, replace Request, replace Response, replace http.Request, HttpMiddlewareHandlerToFilter around a wrapping middleware, set ResponseWriter}; any filter short-circuits on demand of the request. 40-request sequences (routed, 404/405 routing failures, HandleWithFilter) run sequentially on one container and then from 16 goroutines (race detector on). Offline checker per request: exact enter/pass/exit sequence = prefix of [container.., service.., route.., handler] with reversed exits, each once, hand-over identity of (Request, Response, http.Request, writer, attributes). Non-trivial = a request whose chain has >= 2 elements; distinct by (filter counts per level, short-circuit position, request kind, behaviours on the path).")
+	ctx.Rule("generated configurations: 0-5 container filters, two WebServices with 0-3 service filters, two routes and a pair of representation twins (same method and path, JSON vs XML) with 0-3 route filters each, every filter named after its owner, behaviour per filter in {pass, set attribute, replace Request, replace Response, replace http.Request, HttpMiddlewareHandlerToFilter around a wrapping middleware, set ResponseWriter}; any filter short-circuits on demand of the request; service / container filters registered before or after the routes / services; handlers that panic (recovery on: nothing in the chain may run a second time). 40-request sequences (routed, 404/405 routing failures, HandleWithFilter) run sequentially on one container and then from 16 goroutines (race detector on). Offline checker per request: exact enter/pass/exit sequence = prefix of [container.., service.., route.., handler] with reversed exits, each once, hand-over identity of (Request, Response, http.Request, writer, attributes). Non-trivial = a request whose chain has >= 2 elements; distinct by (filter counts per level, short-circuit position, request kind, behaviours on the path).")
 	ctx.Assume("a filter that replaces the Request copies the attributes it knows about (the API offers no enumeration)")
 	configs := ctx.N(250, 20000)
 	for ci := 0; ci < configs; ci++ {
@@ -341,7 +375,7 @@ func c06(ctx *core.Ctx) {
 			continue
 		}
 		r := ctx.Rand(ci, "cfg")
-		cfg := &c06Config{Router: routerOf(ci), Container: genBehs(r, 5)}
+		cfg := &c06Config{Router: routerOf(ci), Container: genBehs(r, 5), LateSvc: r.Chance(1, 3), LateCont: r.Chance(1, 3)}
 		ridx := 0
 		for si := 0; si < 2; si++ {
 			s := c06Svc{Root: fmt.Sprintf("/f%d", si), Filters: genBehs(r, 3)}
@@ -420,6 +454,8 @@ func c06(ctx *core.Ctx) {
 			}
 			if len(chain) > 0 && r.Chance(1, 4) {
 				rq.Short = chain[r.Intn(len(chain))]
+			} else if (rq.Kind == "routed" || rq.Kind == "routed-twin") && r.Chance(1, 6) {
+				rq.Kind = "routed-panic" // the handler panics; recovery is on
 			}
 			reqs = append(reqs, rq)
 		}
@@ -431,6 +467,9 @@ func c06(ctx *core.Ctx) {
 			}
 			if rq.Accept != "" {
 				req.HasAcc, req.Accept = true, rq.Accept
+			}
+			if rq.Kind == "routed-panic" {
+				req.Hdr["X-Panic"] = "H"
 			}
 			hr := rt.HTTPRequest(&req, nil)
 			hr = hr.WithContext(context.WithValue(context.Background(), fLogKey{}, lg))
@@ -464,6 +503,8 @@ func c06(ctx *core.Ctx) {
 				wantStatus = 404
 			} else if rq.Kind == "405" {
 				wantStatus = 405
+			} else if rq.Kind == "routed-panic" {
+				wantStatus = 500
 			}
 			if rec.Code() != wantStatus {
 				ctx.Violation(ci, "c06:status:"+rq.Kind, fmt.Sprintf("status %d, expected %d", rec.Code(), wantStatus), doc)
